@@ -15,6 +15,8 @@ def key_fn(case, obs, verdict):
         return "assert/response:" + what
     if f[0] == "ga":
         return "grpc-assert/response:" + what
+    if f[0] == "grpc":
+        return "engine-grpc:" + what
     if f[0] == "eng":
         return "engine-%s:%s" % (f[1], what)
     return "%s:%s" % (f[0], what)
